@@ -74,7 +74,7 @@ def model(tier, rep, have):
             dropped = sum(1 for t in gen if t["op"] == "insert_su_range")
             gen = [t for t in gen if t["op"] != "insert_su_range"]
         sc, st = vlib.plan_edges(gen, _state_key, lambda n: json.loads(n)[2] == {"a": [], "b": []}, _call,
-                                 follow=lambda t: t["op"] == "insert_copy" and t["ret"]["n"] == 1)
+                                 follow=lambda t: (t["op"] == "insert_copy" and t["ret"]["n"] == 1) or t["op"] == "ctor_range")
         if st["unreachable"]:
             raise vlib.ModelFailure("planner: %d unreachable edges in %s" % (st["unreachable"], name))
         sc = [s[:-1] + [dict(s[-1], last=1)] for s in sc]
@@ -111,8 +111,12 @@ def build_drivers(tier, have, std=True):
     return dict(zip(keys, paths)), kinds
 
 
-def _cmps(kind):
-    return ("less", "greater") if kind == "fmset" else ("less", "greater", "transparent")
+def _insts(tier, kind):
+    """(element type, comparator) instantiations driven per API surface."""
+    cmps = ("less", "greater") if kind == "fmset" else ("less", "greater", "transparent")
+    if tier == "quick" and kind != "sset":      # non-trivial elements: every comparator on static_set, less<> elsewhere
+        return [("int", c) for c in cmps] + [("trk", "less")]
+    return [(e, c) for e in ELEMS for c in cmps]
 
 
 def execute(tier, scripts, bins, kinds, impl="etl"):
@@ -125,8 +129,8 @@ def execute(tier, scripts, bins, kinds, impl="etl"):
         if (impl, kind, "int") not in bins:
             continue
         skind = "fset" if kind == "fsetipv" else kind
-        for elem in ELEMS:
-            for cmp_ in _cmps(kind):
+        for elem, cmp_ in _insts(tier, kind):
+            if True:
                 sp, n = scripts[skind]["less" if cmp_ == "transparent" else cmp_]
                 tp = os.path.join(d, "set_%s_%s_%s_%s_%s.ndjson" % (impl, kind, elem, cmp_, tier))
                 tasks.append(([bins[(impl, kind, elem)], "replay", kind, elem, cmp_, str(T["cap"]), sp], tp))
@@ -152,30 +156,38 @@ def execute(tier, scripts, bins, kinds, impl="etl"):
                   "crashes": crashes}
 
 
+def _side(tier, scripts, bins, kinds, impl):
+    traces, st = execute(tier, scripts, bins, kinds, impl)
+    merged = concat(traces, os.path.join(vlib.workdir("traces"), "set_%s_merged_%s" % (impl, tier)), 8)
+    tv = vlib.tv_parallel("SetTrace.tla", "SetTrace.cfg", merged, "set_tv_%s_%s" % (impl, tier), par=8)
+    return tv, st
+
+
 def pipeline(tier, rep, calibrate=True):
+    from concurrent.futures import ThreadPoolExecutor
     have = probes()
     scripts = model(tier, rep, have)
     bins, kinds = build_drivers(tier, have, std=calibrate)
-    traces, st = execute(tier, scripts, bins, kinds, "etl")
-    merged = concat(traces, os.path.join(vlib.workdir("traces"), "set_etl_merged_" + tier), 10)
-    tv = vlib.tv_parallel("SetTrace.tla", "SetTrace.cfg", merged, "set_tv_etl_" + tier, par=10)
-    rep.add_tv("Set", tv, st["scripts"] + st["histories"])
-    not_drivable = ["%s: does not instantiate/link" % PROBES[n] for n in sorted(PROBES) if not have[n]]
-    rep.cov["modules"].setdefault("Set", {}).update({"not_drivable": not_drivable + st["unsupported"], "replay_desync": st["desync"],
-                                                     "crashes_contained": st["crashes"]})
-    if st["desync"] and not tv["deviations"]:
-        raise vlib.ModelFailure("set replay: %d scripts left the planned path but no event deviates" % st["desync"])
-    if st["leaks"]:
-        rep.notes.append({"live_count_imbalance": st["leaks"]})
+    with ThreadPoolExecutor(max_workers=2) as ex:      # implementation and calibration side by side
+        fe = ex.submit(_side, tier, scripts, bins, kinds, "etl")
+        fs = ex.submit(_side, tier, scripts, bins, kinds, "std") if calibrate else None
+        tv, st = fe.result()
+        ctv, cst = fs.result() if fs else (None, None)
     if calibrate:
-        ctr, cst = execute(tier, scripts, bins, kinds, "std")
-        cm = concat(ctr, os.path.join(vlib.workdir("traces"), "set_std_merged_" + tier), 10)
-        ctv = vlib.tv_parallel("SetTrace.tla", "SetTrace.cfg", cm, "set_tv_std_" + tier, par=10)
-        if ctv["deviations"] or cst["desync"]:
+        if ctv["deviations"] or cst["desync"] or cst["crashes"]:
             d = ctv["deviations"][0] if ctv["deviations"] else {"kind": "desync", "ev": cst["desync"]}
             raise vlib.ModelFailure("calibration: libstdc++ deviates from Set spec (spec/projection error): %s %s"
                                     % (d["kind"], json.dumps(d.get("ev"))[:700]))
         if cst["unsupported"]:
             raise vlib.ModelFailure("calibration build lacks operations: %s" % cst["unsupported"])
+    rep.add_tv("Set", tv, st["scripts"] + st["histories"])
+    not_drivable = ["%s: does not instantiate/link" % PROBES[n] for n in sorted(PROBES) if not have[n]]
+    rep.cov["modules"]["Set"].update({"not_drivable": not_drivable + st["unsupported"], "replay_desync": st["desync"],
+                                      "crashes_contained": st["crashes"], "probes": {PROBES[n]: have[n] for n in PROBES}})
+    if st["desync"] and not tv["deviations"]:
+        raise vlib.ModelFailure("set replay: %d scripts left the planned path but no event deviates" % st["desync"])
+    if st["leaks"]:
+        rep.notes.append({"live_count_imbalance": st["leaks"]})
+    if calibrate:
         rep.cov["modules"]["Set"]["calibration_events_std"] = ctv["events"]
     return tv, st
